@@ -26,7 +26,8 @@ BASES = [
     ("A", [0x41]), ("V", [0x56]), ("T", [0x54]), ("a", [0x61]), ("o", [0x6F]),
     ("n", [0x6E]), ("one", [0x31]), ("period", [0x2E]), ("hyphen", [0x2D]),
 ]
-MULTI = [("alpha", [0x3B1]), ("uni0430", [0x430]), ("Sigma", [0x3A3]), ("uni0414", [0x414])]
+MULTI = [("alpha", [0x3B1]), ("uni0430", [0x430]), ("Sigma", [0x3A3]), ("uni0414", [0x414]),
+         ("u1F600", [0x1F600]), ("u1D400", [0x1D400])]
 RTL = [("beh-ar", [0x628]), ("alef-ar", [0x627]), ("alef-hb", [0x5D0]), ("reh-ar", [0x631])]
 INDIC = [("ka-deva", [0x915]), ("ga-deva", [0x917])]
 MARKS_TOP = [("acutecomb", [0x301]), ("gravecomb", [0x300]), ("fatha-ar", [0x64E]),
@@ -585,6 +586,8 @@ def gen_family(rng, force=(), forbid=(), n_masters=None, max_glyphs=14, p_sparse
             layers["empty.layer"] = {}
     if "meta" in on:
         lib["public.openTypeMeta"] = {"dlng": ["en-Latn"], "slng": ["Latn", "Grek"]}
+        if rng.random() < 0.4:
+            lib["public.openTypeMeta"]["Simx"] = "free text"
     if "underline_pos" in on:
         lib["public.openTypePostUnderlinePosition"] = -75
     data = {}
@@ -605,6 +608,9 @@ def gen_family(rng, force=(), forbid=(), n_masters=None, max_glyphs=14, p_sparse
         "ascender": int(upm * 0.8), "descender": -int(upm * 0.2),
         "xHeight": int(upm * 0.5), "capHeight": int(upm * 0.7),
     }
+    if "vertical" in on and rng.random() < 0.7:
+        info.update({"openTypeVheaVertTypoAscender": upm // 2, "openTypeVheaVertTypoDescender": -(upm // 2),
+                     "openTypeVheaVertTypoLineGap": 0})
     if "openinfo" in on:
         info.update({
             "versionMajor": 1, "versionMinor": rng.choice([0, 5]),
@@ -617,6 +623,9 @@ def gen_family(rng, force=(), forbid=(), n_masters=None, max_glyphs=14, p_sparse
             "italicAngle": rng.choice([0, -9.5]),
             "copyright": "© Sim",
         })
+        if rng.random() < 0.4:
+            info["styleMapStyleName"] = rng.choice(["bold", "italic", "bold italic", "regular"])
+            info["styleMapFamilyName"] = info["familyName"]
         if rng.random() < 0.3:
             info["openTypeHeadCreated"] = "2020/01/02 03:04:05"
         if rng.random() < 0.3:
